@@ -75,3 +75,24 @@ CHECKS["C01"] = {
         {"name": "streams", "run": "^TestC01Streams$", "kind": "rapid", "checks": {"quick": 12000, "thorough": 400000}, "shards": {"quick": 8, "thorough": 16}},
     ],
 }
+
+CHECKS["C14"] = {
+    "pkg": "props/c14",
+    "level": "exploration",
+    "rule": "Streaming mode. rapid: one request (body 0..70 KiB centred on the 8192/8193 prefetch limit, Content-Length or chunked with arbitrary chunk sizes/trailers, optional Expect: 100-continue) x consumption program (cyclic read sizes from {1..65536}, stop after 0 / any byte count / chunk edge +-1 / 8191..8193 / end, or read to EOF and once more) x {pipelined probe, end of stream, peer closes mid-message} x segmentation x read buffer. "
+            "Exhaustive unit: small bodies and bodies whose tail looks like a terminating chunk plus a smuggled request x every chunking x every stop point x read size {1,2,64} x {whole, byte-wise, every single cut}. "
+            "Non-trivial = non-empty body, probe follows, and (stop strictly inside the body, or body > 8192, or >= 2 chunks); distinct by FNV-64 of (request bytes, program, cuts).",
+    "assumptions": [
+        "closing the connection instead of resynchronising is allowed (as the statement says); a 4xx written after the streamed request's response is not: it means unread body bytes were parsed as a request",
+        "for a peer that closes mid-body the stream must report an error other than io.EOF when read to the end",
+        "the 'never waits for bytes beyond the body' clause is checked without timing: no wire Read may be issued during the handler once all bytes of the message were delivered",
+    ],
+    "level_text": "Random + bounded-exhaustive exploration with a prefix/EOF oracle on the body stream, a wire-read phase oracle for over-reading, and a pipelined probe that must be served as itself (or the connection closed) after the handler returns.",
+    "level_note": "Trusts wire's serialiser/strict reader and the scripted connection; standard transport only in the quick tier.",
+    "technique": "property-based testing (rapid) + bounded-exhaustive stop-point enumeration with prefix/EOF and resynchronisation oracles",
+    "nontrivial_floor": 500,
+    "units": [
+        {"name": "exhaustive-stops", "run": "^TestC14Exhaustive$", "kind": "plain", "shards": 8},
+        {"name": "stream", "run": "^TestC14Stream$", "kind": "rapid", "checks": {"quick": 16000, "thorough": 400000}, "shards": {"quick": 8, "thorough": 16}},
+    ],
+}
